@@ -255,3 +255,8 @@ def run(prog: Program, ctx: Ctx) -> None:  # noqa: PLR0912,PLR0915
     ctx.rule("R8", "the names inside a quoted annotation are resolved in the scope the annotation is written in (the class body for an annotation in a "
                    "class, the very module object being built - not another load of the same path)")
     string_annotation_scope_rows(prog, ctx, "R8")
+
+    # ------------------------------------------------------------------ R9 names brought in by wildcard imports
+    from sa.importrules import wildcard_table
+
+    wildcard_table(prog, ctx, "R9")
